@@ -11,10 +11,21 @@ Inductive sem_kind :=
 | SFailIf (s : str)             (* raises FailedSemantics when the ast is the string s, else identity *)
 | SRaiseIf (s : str) (exn : nat)(* raises exception class #exn when the ast is the string s, else identity *)
 | SConst (v : value)            (* returns a constant *)
-| SWrap.                        (* returns [ast]: a plain Python list holding the argument *)
+| SWrap                         (* returns [ast]: a plain Python list holding the argument *)
+| SFailSize (n : nat).          (* raises FailedSemantics when the ast holds at least n leaves, else identity *)
 
 Definition is_vstr (v : value) (s : str) : bool :=
   match v with VStr t => str_eqb s t | _ => false end.
+
+(* number of leaves of a value (strings, numbers, ...), through lists, tuples, dict values and tags *)
+Fixpoint vsize (v : value) : nat :=
+  match v with
+  | VTuple l => (fix go (l : list value) := match l with [] => 0 | x :: t => vsize x + go t end) l
+  | VList _ l => (fix go (l : list value) := match l with [] => 0 | x :: t => vsize x + go t end) l
+  | VDict kv => (fix go (l : list (str * value)) := match l with [] => 0 | (_, x) :: t => vsize x + go t end) kv
+  | VTag _ l => (fix go (l : list value) := match l with [] => 0 | x :: t => vsize x + go t end) l
+  | _ => 1
+  end.
 
 Definition act_kind (k : sem_kind) (r : nat) (v : value) : aret :=
   match k with
@@ -25,6 +36,7 @@ Definition act_kind (k : sem_kind) (r : nat) (v : value) : aret :=
   | SRaiseIf s x => if is_vstr v s then ARaise x else ARet v
   | SConst c => ARet c
   | SWrap => ARet (VList false [v])
+  | SFailSize n => if Nat.leb n (vsize v) then AFailed else ARet v
   end.
 
 (* per-rule methods, with `_default` for the rest *)
